@@ -966,3 +966,47 @@ def r_rectify_rotation(cx):
                   "%s: the step between skew (u, v) and rectified coordinates is not a rotation: %s" % (fn, why),
                   cx.where(span))
     cx.count("R-RECTIFY-ROTATION", "pairs", n)
+
+
+@rule("R-COINCIDENCE-BOTH", ["C06"])
+def r_coincidence_both(cx):
+    """geodesic_inv answers "distance 0, azimuths 0" without computing when the two points coincide. Two points coincide
+    when they agree in longitude *and* latitude: every constant result the function returns early is decided by a test
+    that looks at both coordinate differences - not at the longitude difference alone, which would give every pair of
+    points on one meridian the distance 0."""
+    import guards
+    import elems as E
+    name = "ellipsoid::geodesics::Geodesics::geodesic_inv"
+    f = cx.f.fn(name)
+    rt = E.return_term(f)
+    rt = mir.strip_refs(rt) if rt is not None else None
+    n = 0
+    if rt is not None and rt[0] == "phi" and isinstance(rt[1][0], int):
+        reach = f.reachable()
+        preds = [p for p in f.pred[rt[1][0]] if p in reach]
+        if len(preds) == len(rt[2]):
+            for p, arm in zip(preds, rt[2]):
+                arm = mir.strip_refs(arm)
+                if not (arm[0] == "call" and all(_fnum(mir.strip_refs(x)) is not None for x in arm[2])):
+                    continue
+                n += 1
+                facts = guards.edge_facts(f, p, rt[1][0])
+                elems_seen = set()
+                for at, tv in facts:
+                    def vis(y):
+                        if y[0] == "proj" and isinstance(y[2], tuple) and y[2][0] == "f" and mir.strip_refs(y[1])[0] == "call" and \
+                                str(mir.strip_refs(y[1])[1]).rsplit("::", 1)[-1] == "xy":
+                            arg = mir.strip_refs(mir.strip_refs(y[1])[2][0])
+                            elems_seen.add((arg, y[2][1]))
+                        return True
+                    mir.walk(at, vis)
+                which = {k for _, k in elems_seen}
+                args_ = {a for a, _ in elems_seen}
+                ok = which == {0, 1} and len(args_) >= 2
+                cx.ob("R-COINCIDENCE-BOTH", "geodesic_inv/shortcut%d" % (n - 1), ok,
+                      "the coincidence short-cut compares both the longitudes and the latitudes of the two points" if ok else
+                      "geodesic_inv returns a constant result on a test that looks at %s only: two different points that "
+                      "agree there (e.g. on one meridian) get distance 0" % (
+                          "the longitudes" if which == {0} else "the latitudes" if which == {1} else "neither coordinate"),
+                      cx.where(f.d["span"]))
+    cx.count("R-COINCIDENCE-BOTH", "shortcuts", n)
